@@ -245,3 +245,10 @@ def signal(peer, path=b"/noise", iface=b"com.example.Noise", member=b"N", sig=b"
     return wire.encode_message(wire.T_SIGNAL, [(wire.F_PATH, Variant(b"o", path)), (wire.F_INTERFACE, Variant(b"s", iface)),
                                                (wire.F_MEMBER, Variant(b"s", member))],
                                sig, list(body), serial=peer.next_serial(), flags=1, order=order)
+
+
+def spoof(peer, mtype, reply_serial, sig=b"", body=(), order="l"):
+    """A message that is NOT a reply (SIGNAL or METHOD_CALL) but carries a REPLY_SERIAL header field."""
+    fields = [(wire.F_PATH, Variant(b"o", b"/spoof")), (wire.F_INTERFACE, Variant(b"s", b"com.example.Spoof")),
+              (wire.F_MEMBER, Variant(b"s", b"S")), (wire.F_REPLY_SERIAL, Variant(b"u", reply_serial))]
+    return wire.encode_message(mtype, fields, sig, list(body), serial=peer.next_serial(), flags=1, order=order)
